@@ -723,3 +723,5 @@ func sigHash(parts ...any) string {
 	}
 	return strconv.FormatUint(h.Sum64(), 36)
 }
+
+func newRand(seed int64) *rand.Rand { return rand.New(rand.NewSource(seed)) }
